@@ -31,7 +31,7 @@ BATCHER_OPTS = {
 GAPS = (0.0, 0.1, 0.5, 1.5)
 
 
-def run_batcher(aiu, form, opts, prog, batch_dur):
+def run_batcher(aiu, form, opts, prog, batch_dur, gc_events=False):
     """prog: [(gap, key)] -> observation tuple."""
     obs = B.Obs()
 
@@ -57,6 +57,9 @@ def run_batcher(aiu, form, opts, prog, batch_dur):
         for i, (gap, k) in enumerate(prog):
             if gap:
                 await asyncio.sleep(gap)
+                if gc_events:          # environment event: a cyclic garbage collection while the program idles
+                    import gc
+                    gc.collect()
             tasks.append(loop.create_task(caller(i, k)))
         await asyncio.wait(tasks)
         return tuple(outs)
@@ -369,6 +372,19 @@ def run_case(item):
                 st.sig(('batcher', optnames, tuple(prog), bd, logs['class']))
                 if logs['class'] != base:
                     sensitive = True
+                if 'retention_timeout' in opts and any(g > 0 for g, _ in prog):
+                    # the same programs with a garbage collection during every idle gap
+                    glogs = {form: run_batcher(aiu, form, opts, prog, bd, gc_events=True)
+                             for form in ('class', 'func', 'deco')}
+                    st.executions += 3
+                    for form in ('class', 'func', 'deco'):
+                        if glogs[form] != logs['class']:
+                            st.violation('option_lost_after_garbage_collection',
+                                         f'async_background_batcher {form} form with {opts}: a gc.collect() while the '
+                                         f'program idles changes the behaviour: program {prog} batch_dur {bd}: '
+                                         f'{glogs[form][:2]} vs {logs["class"][:2]}',
+                                         {'mode': 'batcher', 'opts': opts, 'prog': prog, 'batch_dur': bd, 'form': form,
+                                          'gc': True})
                 for form in ('func', 'deco'):
                     if logs[form] != logs['class']:
                         st.violation('option_not_applied',
